@@ -38,6 +38,8 @@ pub struct Ctx<'a> {
   pub callees: Vec<String>,
   /// name of the `Self` type's generic (for impl-level functions), if any
   pub self_ty: Option<Ty>,
+  /// byte views of a vector-with-contents: (view variable, vector variable)
+  pub aliases: Vec<(String, String)>,
 }
 
 type R<T> = Result<T, String>;
@@ -215,6 +217,28 @@ impl<'a> Ctx<'a> {
         return Ok(Tr::eff(format!("(if {} then {} else {})", pred, a.lifted(), r.lifted()), ty));
       }
     }
+    // `view[..n].copy_from_slice(src);` where view is the byte view of a vector-with-contents: an update of the vector
+    if let (true, syn::Expr::MethodCall(mc)) = (semi, e) {
+      if mc.method == "copy_from_slice" && mc.args.len() == 1 {
+        if let syn::Expr::Index(ix) = &*mc.receiver {
+          if let (syn::Expr::Path(vp), syn::Expr::Range(rg)) = (&*ix.expr, &*ix.index) {
+            let view = vp.path.segments.last().map(|s| s.ident.to_string()).unwrap_or_default();
+            let target = self.aliases.iter().rev().find(|(v, _)| *v == view).map(|(_, t)| t.clone());
+            if let (Some(target), None, Some(end), syn::RangeLimits::HalfOpen(_)) = (target, &rg.start, &rg.end, &rg.limits) {
+              let n = self.expr(end, Some(&Ty::Usize))?;
+              let src = self.expr(&mc.args[0], None)?;
+              if src.ty != Ty::Ref(Box::new(Ty::SliceOf(Box::new(Ty::U8)))) {
+                return Err(format!("copy_from_slice from {:?}", src.ty));
+              }
+              let tv = vname(&target);
+              let (upd, _) = self.seq(vec![n, src], |v| (format!("(bvec_copy_prefix ENV {} {} {})", tv, v[0], v[1]), false));
+              let r = self.block(rest, expected)?;
+              return Ok(Tr::eff(format!("({} <- {} ;;\n   {})", tv, upd, r.lifted()), r.ty));
+            }
+          }
+        }
+      }
+    }
     // `return e;`
     if let syn::Expr::Return(r) = e {
       let ret = self.ret.clone();
@@ -320,6 +344,12 @@ impl<'a> Ctx<'a> {
       return Ok(Tr::eff(code, r.ty));
     }
     let e = self.expr(&init.expr, ann.as_ref())?;
+    // `let view = cast_slice_mut(&mut v[..])` with v a vector-with-contents: view is the byte view of v
+    if let (Some(target), syn::Pat::Ident(pi)) = (self.byte_view_target(&init.expr), pat) {
+      if e.ty == Ty::Ref(Box::new(Ty::SliceOf(Box::new(Ty::U8)))) {
+        self.aliases.push((pi.ident.to_string(), target));
+      }
+    }
     let ty = match (ann, &e.ty) {
       // `let p: *mut B = <raw pointer out of a container>`: still that container
       (Some(Ty::Ref(t)), Ty::RawCont(_)) => Ty::RawCont(t),
@@ -335,6 +365,27 @@ impl<'a> Ctx<'a> {
     } else {
       Ok(Tr::eff(format!("({} <- {} ;;\n   {})", binder_bind(&binder), e.code, r.lifted()), r.ty))
     }
+  }
+
+  /// `cast_slice_mut(&mut X[..])` with X : BVec -> Some(X)
+  fn byte_view_target(&self, e: &syn::Expr) -> Option<String> {
+    if let syn::Expr::Call(c) = e {
+      if let syn::Expr::Path(p) = &*c.func {
+        if p.path.segments.last().map(|s| s.ident == "cast_slice_mut").unwrap_or(false) && c.args.len() == 1 {
+          if let syn::Expr::Reference(r) = &c.args[0] {
+            if let syn::Expr::Index(ix) = &*r.expr {
+              if let (syn::Expr::Path(bp), syn::Expr::Range(rg)) = (&*ix.expr, &*ix.index) {
+                if rg.start.is_none() && rg.end.is_none() && bp.path.segments.len() == 1 {
+                  let n = bp.path.segments[0].ident.to_string();
+                  if matches!(self.lookup(&n), Some(Ty::BVec(_))) { return Some(n); }
+                }
+              }
+            }
+          }
+        }
+      }
+    }
+    None
   }
 
   /// Bind a pattern: identifiers, `_`, and tuples of those.  Returns the Coq binder text.
@@ -653,6 +704,27 @@ impl<'a> Ctx<'a> {
         let (code, pure) = self.seq(vec![c], |n| (format!("(assert_m {})", n[0]), false));
         Ok(Tr { code, ty: Ty::Unit, pure })
       }
+      "vec" => {
+        // vec![T::zeroed(); n] : a fresh vector of n all-zero elements
+        let parts = split_semis(mac.tokens.clone());
+        if parts.len() != 2 { return Err("vec! that is not `[elem; count]`".into()); }
+        let elem: syn::Expr = syn::parse2(parts[0].clone()).map_err(|e| e.to_string())?;
+        let t = match &elem {
+          syn::Expr::Call(c) if c.args.is_empty() => match &*c.func {
+            syn::Expr::Path(p) if p.path.segments.len() == 2 && p.path.segments[1].ident == "zeroed" => {
+              let id = p.path.segments[0].ident.to_string();
+              if self.gnames().contains(&id) { Ty::Param(id) } else { return Err("vec! of zeroed() of a non-parameter type".into()); }
+            }
+            _ => return Err("vec! element is not T::zeroed()".into()),
+          },
+          _ => return Err("vec! element is not T::zeroed()".into()),
+        };
+        let cnt: syn::Expr = syn::parse2(parts[1].clone()).map_err(|e| e.to_string())?;
+        let n = self.expr(&cnt, Some(&Ty::Usize))?;
+        let tt = self.tyterm(&t)?;
+        let (code, pure) = self.seq(vec![n], |v| (format!("(vec_zeroed {} {})", tt, v[0]), false));
+        Ok(Tr { code, ty: Ty::BVec(Box::new(t)), pure })
+      }
       "transmute" => {
         // transmute!(val)  |  transmute!(Src; Dst; val)
         if !self.callees.iter().any(|c| c == "Root::transmute!") { self.callees.push("Root::transmute!".into()); }
@@ -968,7 +1040,7 @@ pub fn translate_fn_with(ms: &ModuleSpec, sig: &FnSig, body: &syn::Block,
                          coq_name: &str) -> R<(String, Vec<String>)> {
   let mut cx = Ctx {
     ms, sigs, generics: sig.generics.clone(), vars: vec![], ret: sig.ret.clone(), fresh: 0,
-    callees: vec![], self_ty,
+    callees: vec![], self_ty, aliases: vec![],
   };
   for (n, t) in &sig.params {
     cx.vars.push((n.clone(), t.clone()));
